@@ -11,9 +11,12 @@
 //
 // Oracle (client boundary): once Stop() has returned and every gate is open,
 // every Download call has returned; nil is returned only if the blob was in
-// the cache at some instant of the call (exact bytes when still present at
-// return); the event loop never blocks on a waiter channel (Probe succeeds
-// between steps, Stop returns). Wall-clock waits are watchdogs only; a
+// the cache with exact bytes where the success was decided — when an event
+// that can have delivered the result (it released waiters of the control, or
+// answered a request at once from a complete control) had finished applying —
+// or at return time; a deletion by a later event is tolerated, a deletion by
+// the delivering event itself is not; the event loop never blocks on a waiter
+// channel (Probe succeeds between steps, Stop returns). Wall-clock waits are watchdogs only; a
 // "never returns" verdict additionally requires the goroutine profile to show
 // the call parked in doDownload's channel receive after Stop returned.
 package c17
@@ -279,6 +282,17 @@ type call struct {
 
 type window struct{ lo, hi int64 }
 
+// delivery is one applied event which may have handed a result to Download
+// calls of a blob (it released waiters of its control, or it is a
+// newTorrentEvent answered immediately by a complete control), with the state
+// of the cache when the event had finished applying.
+type delivery struct {
+	stamp    int64 // taken before apply: lies inside the interval of every call it answered
+	name     string
+	inCache  bool
+	mismatch bool
+}
+
 type caseRun struct {
 	run   *ev.Run
 	w     *worker
@@ -296,6 +310,8 @@ type caseRun struct {
 
 	mu         sync.Mutex
 	stores     map[int][]window                       // windows in which blob b was moved to the cache
+	deliveries map[int][]delivery                     // per blob, in apply order
+	curStamp   int64                                  // stamp of the event being applied (loop goroutine only)
 	stale      map[int][]int64                        // stamps at which a stale completion notice hit a newer control
 	droppers   map[int]string                         // blob -> first event which removed a complete control that still had waiters
 	cancelled  map[int]string                         // blob -> first event which cancelled an in-progress download of it
@@ -352,6 +368,7 @@ func (cr *caseRun) setup() error {
 	cr.gate = rig.NewGate()
 	cr.wgate = rig.NewGate()
 	cr.stores = map[int][]window{}
+	cr.deliveries = map[int][]delivery{}
 	cr.stale = map[int][]int64{}
 	cr.droppers = map[int]string{}
 	cr.cancelled = map[int]string{}
@@ -375,6 +392,7 @@ func (cr *caseRun) setup() error {
 		if cr.loopGID.Load() == 0 {
 			cr.loopGID.Store(rig.GID())
 		}
+		cr.curStamp = cr.next()
 		for i, b := range cr.blobs {
 			cr.pre[i] = v.Torrent(b.InfoHash())
 		}
@@ -402,6 +420,19 @@ func (cr *caseRun) setup() error {
 	cr.gate.AfterApply = func(info scheduler.VerifC17EventInfo, v scheduler.VerifC17View) {
 		for i, b := range cr.blobs {
 			pre, post := cr.pre[i], v.Torrent(b.InfoHash())
+			// Could this event have delivered a result for blob i? Then the cache is
+			// probed now: a success is judged at the instant it was decided.
+			released := pre.Present && pre.Waiters > 0 &&
+				(!post.Present || post.Ref != pre.Ref || post.Waiters < pre.Waiters ||
+					(info.Name == rig.EvComplete && info.Ref == pre.Ref))
+			immediate := info.Name == rig.EvNewTorrent && cr.blobIndex(info.InfoHash, info.Digest) == i &&
+				post.Present && post.Complete
+			if released || immediate {
+				st := cr.L.Stat(b, true)
+				cr.mu.Lock()
+				cr.deliveries[i] = append(cr.deliveries[i], delivery{cr.curStamp, info.Name, st.InCache, st.Mismatch})
+				cr.mu.Unlock()
+			}
 			if pre.Present && !pre.Complete && (!post.Present || post.Ref != pre.Ref) {
 				cr.mu.Lock()
 				if _, seen := cr.cancelled[i]; !seen {
@@ -713,17 +744,47 @@ func (cr *caseRun) execStep(idx int, s step) {
 			cr.executed = append(cr.executed, "fill-failed("+s.String()+":earlier-piece-write-error)")
 			return
 		}
-		beforeW := cr.wgate.Count(wname)
 		cr.wgate.Release(wname)
 		// The torrent completes, or a piece write fails: a RemoveTorrent that ran
 		// between a request's CreateTorrent and its newTorrentEvent deleted the
 		// download file under the torrent, which can then only time out.
 		writeFailed := false
-		if !cr.wgate.Wait(watchdog, func(count func(string) rig.Counters) bool {
-			n := count(wname)
-			writeFailed = (n.Sent - n.SentOK) > (beforeW.Sent - beforeW.SentOK)
-			return count(stored).Applied > beforeStored || writeFailed
-		}) {
+		// Third ending: the blob is already in the cache but the control is an
+		// incomplete one without conns — newTorrentEvent's "cache evicted" branch
+		// replaced the complete control by one built on a request's stale,
+		// incomplete Torrent object; that control can only time out. (Checked on
+		// two consecutive polls: a logical state, not a delay.)
+		replaced, seen := false, 0
+		deadline := time.Now().Add(watchdog)
+		finished := false
+		for !finished && !replaced && time.Now().Before(deadline) {
+			finished = cr.wgate.Wait(50*time.Millisecond, func(count func(string) rig.Counters) bool {
+				n := count(wname)
+				writeFailed = (n.Sent - n.SentOK) > cr.errsAck[s.B] // every error not yet accounted for, whenever it landed
+				return count(stored).Applied > beforeStored || writeFailed
+			})
+			if finished {
+				break
+			}
+			var st2 scheduler.VerifC17TorrentState
+			nc := 0
+			cr.L.Sched.VerifC17Inspect(func(v scheduler.VerifC17View) {
+				st2 = v.Torrent(cr.blobs[s.B].InfoHash())
+				nc = v.NumConns(cr.blobs[s.B].InfoHash())
+			})
+			if st2.Present && !st2.Complete && nc == 0 && cr.L.InCache(cr.blobs[s.B]) && cr.wgate.Count(wname).Parked == 0 {
+				seen++
+			} else {
+				seen = 0
+			}
+			replaced = seen >= 2
+		}
+		if replaced {
+			cr.run.Count("fill_ended_by_control_replaced_with_stale_incomplete_torrent", 1)
+			cr.executed = append(cr.executed, "fill-failed("+s.String()+":control-replaced-by-stale-incomplete-torrent)")
+			return
+		}
+		if !finished {
 			st, _ := cr.L.TorrentState(cr.blobs[s.B].InfoHash())
 			nc := -1
 			cr.L.Sched.VerifC17Inspect(func(v scheduler.VerifC17View) { nc = v.NumConns(cr.blobs[s.B].InfoHash()) })
@@ -1154,16 +1215,29 @@ early:
 			}
 			continue
 		}
-		justified := c.startPresent || c.endPresent
+		// A success must be justified where it was decided: the blob is in the
+		// cache when the event that delivered the nil has finished applying, or at
+		// return time. A deletion by a later event stays tolerated.
+		justified := c.endPresent
+		lastDelivery, lastDeliveryStamp := "", int64(-1) // the last candidate before the return is the one that answered this call
 		cr.mu.Lock()
-		for _, w := range cr.stores[c.b] {
-			if w.hi >= c.startStamp && w.lo <= c.endStamp {
+		for _, d := range cr.deliveries[c.b] {
+			if d.stamp < c.startStamp || d.stamp > c.endStamp {
+				continue
+			}
+			if d.inCache && !d.mismatch {
 				justified = true
 			}
+			lastDelivery, lastDeliveryStamp = d.name, d.stamp
 		}
+		// A stale completion notice explains the result only when no event that
+		// can have answered the call lies in its interval (a stale notice which
+		// kraken ignores may well follow the real answer before the call stamps
+		// its return).
+		_ = lastDeliveryStamp
 		staleInCall := false
 		for _, s := range cr.stale[c.b] {
-			if s >= c.startStamp && s <= c.endStamp {
+			if s >= c.startStamp && s <= c.endStamp && lastDelivery == "" {
 				staleInCall = true
 			}
 		}
@@ -1172,11 +1246,18 @@ early:
 			sig := "success-without-blob/other"
 			if staleInCall {
 				sig = "success-without-blob/stale-completion-notice-applied-to-new-torrent"
+			} else if lastDelivery == rig.EvRemove {
+				sig = "success-without-blob/blob-deleted-by-the-event-that-reported-success"
+			} else if lastDelivery == rig.EvNewTorrent {
+				// answered at once from a control built on the request's own Torrent
+				// object, which was opened before the blob was deleted
+				sig = "success-without-blob/request-answered-from-stale-complete-torrent-object"
 			}
 			cr.run.Violation(sig, cr.spec.key(), map[string]interface{}{
 				"case": cr.spec, "executed": cr.executed, "applied_event_order": cr.order(),
 				"call": c.id, "call_started_at_step": c.step, "blob": c.b,
-				"what": "Download returned nil but the blob was not in the cache at any instant of the call",
+				"deliveries_for_blob": fmt.Sprintf("%+v", cr.deliveries[c.b]), "call_interval": []int64{c.startStamp, c.endStamp},
+				"what": "Download returned nil, but the blob was in the cache neither when an event that can have delivered this result had finished applying nor at return time",
 			})
 		} else if c.endPresent && !c.endExact {
 			// Was an in-progress download of this blob cancelled (removal or idle
@@ -1228,7 +1309,7 @@ func (cr *caseRun) launch(stepIdx, b int) *call {
 }
 
 func stress(t *testing.T, run *ev.Run, base string) {
-	rounds := run.N(0, 300)
+	rounds := run.N(0, 800)
 	const workers = 8
 	var wg sync.WaitGroup
 	for wi := 0; wi < workers; wi++ {
@@ -1328,7 +1409,10 @@ func TestC17(t *testing.T) {
 	run.Assume("the in-process seeder, the stub tracker (static handout + metainfo) and the mock clock behave as their real counterparts")
 	run.Assume("holding the send of an event before it reaches the unbuffered loop channel is a schedule the Go runtime may produce")
 
-	n := run.N(160, 4000)
+	n := run.N(160, 12000)
+	if os.Getenv("VERIF_C17_STRESS_ONLY") != "" { // development aid
+		n = 0
+	}
 	gr := run.Rand("schedules")
 	specs := make([]*caseSpec, n)
 	for i := range specs {
